@@ -74,8 +74,11 @@ Inductive op :=
 | OFlush                  (* s.out.e.Flush() *)
 | OGEmit (it : item)      (* lockWriteCloser.EncodeToken: tests the bit itself *)
 | OGFlush                 (* lockWriteCloser.Flush / Close: tests the bit itself *)
-| OCloseSession           (* closeSession: test-and-set, closing tag written to the connection directly *)
-| OSendErrBody            (* body of sendError under the lock *)
+| OTest                   (* sendError's test of OutputStreamClosed: closed: give up (the error register is kept) *)
+| OMark                   (* closeSession, first half: stateMutex.Lock(); test-and-set of the bit; Unlock() *)
+| OWriteTag               (* closeSession, second half: the closing tag, written to the connection directly, if this call set the bit *)
+| OSLock | OSUnlock       (* s.stateMutex.Lock() / Unlock() held across steps (only the pinned design of Close does that) *)
+| OStall (b : bool)       (* environment: the peer stops (true) / resumes (false) reading what the session writes *)
 | ORet                    (* return the error register *)
 | OSetDeadline | OFire    (* SetCloseDeadline; the deadline passes *)
 | OPeer (ev : pev)        (* the peer writes *)
@@ -89,7 +92,11 @@ Inductive op :=
 
 (* ---- state ---- *)
 
-Record outg := mkO { o_lock : option nat; o_cl : bool; o_buf : list item; o_wire : list item }.
+(* o_sl: holder of the state mutex across steps; o_rdy: the peer is reading (a
+   write to the connection completes); o_pend: the bit is set and the closing
+   tag is still to be written by the call that set it *)
+Record outg := mkO { o_lock : option nat; o_cl : bool; o_buf : list item; o_wire : list item;
+                     o_sl : option nat; o_rdy : bool; o_pend : bool }.
 
 Record ing := mkI { i_cl : bool; i_lk : bool; i_q : list pev; i_armed : bool; i_rdexp : bool;
                     i_done : bool; i_err : err; i_dlsup : bool }.
@@ -121,12 +128,22 @@ Definition upd (f : nat -> actor) (i : nat) (a : actor) : nat -> actor :=
 
 (* ---- output-side primitives ---- *)
 
-Definition o_emit (o : outg) (it : item) : outg := mkO (o_lock o) (o_cl o) (o_buf o ++ [it]) (o_wire o).
-Definition o_flush (o : outg) : outg := mkO (o_lock o) (o_cl o) [] (o_wire o ++ o_buf o).
-(* closeSession: the closing tag bypasses the encoder and its buffer *)
-Definition o_close (o : outg) : outg :=
-  if o_cl o then o else mkO (o_lock o) true (o_buf o) (o_wire o ++ [IClose]).
-Definition o_setlock (o : outg) (l : option nat) : outg := mkO l (o_cl o) (o_buf o) (o_wire o).
+Definition o_emit (o : outg) (it : item) : outg :=
+  mkO (o_lock o) (o_cl o) (o_buf o ++ [it]) (o_wire o) (o_sl o) (o_rdy o) (o_pend o).
+Definition o_flush (o : outg) : outg :=
+  mkO (o_lock o) (o_cl o) [] (o_wire o ++ o_buf o) (o_sl o) (o_rdy o) (o_pend o).
+(* closeSession under the state lock: test-and-set; the call that sets the bit owes the tag *)
+Definition o_mark (o : outg) : outg :=
+  if o_cl o then o else mkO (o_lock o) true (o_buf o) (o_wire o) (o_sl o) (o_rdy o) true.
+(* ... and writes it after releasing the state lock; it bypasses the encoder and its buffer *)
+Definition o_writetag (o : outg) : outg :=
+  if o_pend o then mkO (o_lock o) (o_cl o) (o_buf o) (o_wire o ++ [IClose]) (o_sl o) (o_rdy o) false else o.
+Definition o_setlock (o : outg) (l : option nat) : outg :=
+  mkO l (o_cl o) (o_buf o) (o_wire o) (o_sl o) (o_rdy o) (o_pend o).
+Definition o_setsl (o : outg) (l : option nat) : outg :=
+  mkO (o_lock o) (o_cl o) (o_buf o) (o_wire o) l (o_rdy o) (o_pend o).
+Definition o_setrdy (o : outg) (b : bool) : outg :=
+  mkO (o_lock o) (o_cl o) (o_buf o) (o_wire o) (o_sl o) b (o_pend o).
 
 (* ---- input-side primitives ---- *)
 
@@ -147,14 +164,18 @@ Definition i_closeinput (g : ing) : ing :=
 
 (* ---- code fragments of Serve's exits ---- *)
 
-(* the deferred closeInputStream(); Close() *)
-Definition shutdown_code : list op :=
-  [OYield PCloseInputEnter; OCloseInput; OYield PCloseEnter; OLock; OYield PCloseLocked;
-   OCloseSession; OUnlock; ORet].
+(* Close: the output lock, then closeSession *)
+Definition close_code : list op :=
+  [OYield PCloseEnter; OLock; OYield PCloseLocked; OMark; OWriteTag; OUnlock; ORet].
 
-(* sendError(err), then the deferred shutdown *)
+(* the deferred closeInputStream(); Close() *)
+Definition shutdown_code : list op := [OYield PCloseInputEnter; OCloseInput] ++ close_code.
+
+(* sendError(err): if the output is closed the error is returned unsent;
+   otherwise the stream error is encoded (NOT flushed) and the session closed;
+   then the deferred shutdown *)
 Definition senderr_code : list op :=
-  [OYield PSendErrEnter; OLock; OYield PSendErrLocked; OSendErrBody; OUnlock] ++ shutdown_code.
+  [OYield PSendErrEnter; OLock; OYield PSendErrLocked; OTest; OEmit IErr; OMark; OWriteTag; OUnlock] ++ shutdown_code.
 
 Fixpoint skip_to_unlock (k : list op) : list op :=
   match k with
@@ -181,11 +202,16 @@ Definition exec (me : nat) (o : op) (k : list op) (og : outg) (ig : ing) (a : ac
   | OFlush => Some (o_flush og, ig, a')
   | OGEmit it => if o_cl og then Some (og, ig, first_err a' EOutClosed) else Some (o_emit og it, ig, a')
   | OGFlush => if o_cl og then Some (og, ig, first_err a' EOutClosed) else Some (o_flush og, ig, a')
-  | OCloseSession => Some (o_close og, ig, set_chk a' false)
-  | OSendErrBody =>
-      (* if the output is closed the error is returned unsent; otherwise the
-         stream error is encoded (NOT flushed) and the session closed *)
-      if o_cl og then Some (og, ig, a') else Some (o_close (o_emit og IErr), ig, set_chk a' false)
+  | OTest => if o_cl og then Some (og, ig, set_code a (skip_to_unlock k))
+             else Some (og, ig, set_chk a' true)
+  | OMark => Some (o_mark og, ig, set_chk a' false)
+  | OWriteTag => Some (o_writetag og, ig, a')
+  | OSLock => match o_sl og with
+              | None => Some (o_setsl og (Some me), ig, a')
+              | Some _ => None
+              end
+  | OSUnlock => Some (o_setsl og None, ig, a')
+  | OStall b => Some (o_setrdy og (negb b), ig, a')
   | ORet => Some (og, ig, set_res a' (Some (a_e a)))
   | OSetDeadline => Some (og, i_setdeadline ig, a')
   | OFire => if i_armed ig then Some (og, i_fire ig, a') else None
@@ -225,14 +251,44 @@ Definition exec (me : nat) (o : op) (k : list op) (og : outg) (ig : ing) (a : ac
   | OExit e c via => Some (og, ig, set_exit a (if via then senderr_code else shutdown_code) e c)
   end.
 
+(* Two more conditions for an operation to be enabled.
+   Operations that look at (or change) the session state take the state mutex:
+   they wait while another actor holds it.  Operations that write to the
+   connection complete only while the peer is reading. *)
+Definition reads_state (o : op) : bool :=
+  match o with
+  | OChk | OTest | OGEmit _ | OGFlush | OMark | OHEmit _ _
+  | OSetDeadline | OCloseInput | OProbe | OServeTop | OServeRead => true
+  | _ => false
+  end.
+
+Definition sl_ok (me : nat) (og : outg) : bool :=
+  match o_sl og with None => true | Some j => Nat.eqb j me end.
+
+Definition nonempty {A} (l : list A) : bool := match l with [] => false | _ => true end.
+
+Definition writes_conn (o : op) (og : outg) : bool :=
+  match o with
+  | OFlush => nonempty (o_buf og)
+  | OGFlush => negb (o_cl og) && nonempty (o_buf og)
+  | OWriteTag => o_pend og
+  | _ => false
+  end.
+
+Definition gate (me : nat) (o : op) (og : outg) : bool :=
+  (negb (reads_state o) || sl_ok me og) && (negb (writes_conn o og) || o_rdy og).
+
 Definition step (s : state) (i : nat) : option state :=
   let a := s_a s i in
   match a_code a with
   | [] => None
-  | o :: k => match exec i o k (s_o s) (s_i s) a with
-              | Some (og, ig, a') => Some (mkS og ig (upd (s_a s) i a'))
-              | None => None
-              end
+  | o :: k =>
+      if gate i o (s_o s) then
+        match exec i o k (s_o s) (s_i s) a with
+        | Some (og, ig, a') => Some (mkS og ig (upd (s_a s) i a'))
+        | None => None
+        end
+      else None
   end.
 
 (* ---- the programs of the actors ---- *)
@@ -248,7 +304,8 @@ Inductive kind :=
 | KTimer                      (* the deadline passes *)
 | KPeer (evs : list pev)
 | KServe
-| KProbe.
+| KProbe
+| KStall (b : bool).          (* the peer stops / resumes reading *)
 
 Definition mem_name (n : bytes) (l : list bytes) : bool := existsb (bytes_eqb n) l.
 
@@ -260,9 +317,6 @@ Definition encodeelement_guarded : bool := mem_name (str "Session.EncodeElement"
 Definition chk (b : bool) : list op := if b then [OChk] else [].
 Definition tw_emit (it : item) : op := if sc_tw_encodetoken_tests_closed then OGEmit it else OEmit it.
 Definition tw_flush : op := if sc_tw_flush_tests_closed then OGFlush else OFlush.
-
-Definition close_code : list op :=
-  [OYield PCloseEnter; OLock; OYield PCloseLocked; OCloseSession; OUnlock; ORet].
 
 Definition prog_of (k : kind) : list op :=
   match k with
@@ -281,6 +335,7 @@ Definition prog_of (k : kind) : list op :=
   | KPeer evs => map OPeer evs ++ [ORet]
   | KServe => [OServeTop]
   | KProbe => [OProbe; ORet]
+  | KStall b => [OStall b; ORet]
   end.
 
 Definition role_of (k : kind) : role :=
@@ -291,7 +346,7 @@ Definition idle : actor := mkA [] ENil None false CNone RPlain.
 Definition actor_of (k : kind) : actor := mkA (prog_of k) ENil None false CNone (role_of k).
 
 Definition init (dlsup : bool) (ks : list kind) : state :=
-  mkS (mkO None false [] [])
+  mkS (mkO None false [] [] None true false)
       (mkI false false [] false false false ENil dlsup)
       (fun i => match nth_error ks i with Some k => actor_of k | None => idle end).
 
@@ -312,16 +367,19 @@ Fixpoint safe (h c : bool) (code : list op) : bool :=
   | o :: k =>
       match o with
       | OYield _ | OSetDeadline | OPeer _ | ORelIn => safe h c k
+      (* neither the state mutex nor the environment's switch is touched by a holder of the output lock *)
+      | OSLock | OSUnlock | OStall _ => negb h && safe h c k
       (* operations that can block are not performed while holding the output lock *)
       | OFire | OAcqIn | OCloseInput | OProbe => negb h && safe h c k
       | OLock => negb h && safe true false k
       | OUnlock => h && safe false false k
-      | OChk => h && has_unlock k && safe true true k
+      | OChk | OTest => h && has_unlock k && safe true true k
       | OEmit it => h && c && negb (is_close it) && safe h c k
       | OFlush => h && c && safe h c k
       | OGEmit it => h && negb (is_close it) && safe h c k
       | OGFlush => h && safe h c k
-      | OCloseSession | OSendErrBody => h && safe h false k
+      | OMark => h && safe h false k
+      | OWriteTag => h && safe h c k
       | ORet => negb h && safe h c k
       | OServeTop | OServeRead | OExit _ _ _ => negb h
       | OHEmit _ _ => h
